@@ -123,6 +123,9 @@ fn moduli(rng: &mut StdRng, thorough: bool) -> Vec<(String, Uint)> {
         ("p4w".to_string(), (Uint::ONE << 255) - Uint::from(19u64)),          // 2^255 - 19
         ("p8w".to_string(), u("801643889160962459503567529599420993581193510766215918385643775834136080985009029500140562854896402036056836567241446409601881132259487327233447")),
         ("p1w61".to_string(), (Uint::ONE << 61) - Uint::ONE),
+        // two-word moduli with the top bit set: sums of two residues exceed 2^128
+        ("p2wtop".to_string(), (Uint::ONE << 128) - Uint::from(159u64)),      // 2^128 - 159
+        ("c2wtop".to_string(), u("18446744073709551557") * u("18446744073709551533")), // (2^64 - 59)(2^64 - 83)
     ];
     let sizes: &[(u32, &str)] = if thorough {
         &[(64, "c1w"), (128, "c2w"), (192, "c3w"), (256, "c4w"), (320, "c5w"), (384, "c6w"), (448, "c7w"), (500, "c8w"), (100, "c2ws")]
@@ -528,6 +531,33 @@ pub fn run(args: &Args) -> i32 {
                 Ok(x) => merge(v, Ok(x)),
                 Err(_) => v,
             });
+        }
+    }
+    // the public conversion 512-bit curve -> 128-bit curve (From<&ecm::Curve>): it may refuse a curve (asserted
+    // precondition), but a curve it accepts must carry the same group law as the curve it was made from
+    for (ci, cv) in small_curves.iter().enumerate() {
+        for (ki, &k) in [2u64, 3, 7, 1000003, u64::MAX, 0x8000_0000_0000_0001].iter().enumerate() {
+            let j = [1u64, 2, 3, 7, 20][(ci + ki) % 5];
+            let p = cv.mul(j);
+            let pm = to_m(&cv.zn, &p);
+            let case = format!("{}/conv/{}*[{}]G", cv.name, k, j);
+            let mut v = cv.base("conv128", &case);
+            v["p"] = j3(&p);
+            v["k"] = du(k);
+            v["kd"] = json!(k.to_string());
+            v["j"] = json!(j);
+            let (c, zn) = (&cv.c, &cv.zn);
+            match guard(|| yamaquasi::ecm128::Curve::from(c)) {
+                Err(e) => {
+                    v["accepted"] = json!(false);
+                    v["refusal"] = e["msg"].clone();
+                    out.ev(v);
+                }
+                Ok(c128) => {
+                    v["accepted"] = json!(true);
+                    out.ev(merge(v, guard(|| json!({"r": j3r(zn, &h128::scalar64_mul(&c128, k, &to128(&pm)))}))));
+                }
+            }
         }
     }
     // 1024-bit scalars on one-word moduli
